@@ -5,7 +5,7 @@ from .common import *
 from . import kengine
 from .kengine import H
 
-K_PROPS = ["c02", "c03", "c04", "c07", "c09", "c10", "c11", "c17", "c18", "c19"]          # modules under vlib/props driven by engine K (extended as properties are built)
+K_PROPS = ["c02", "c03", "c04", "c07", "c09", "c10", "c11", "c14", "c17", "c18", "c19"]          # modules under vlib/props driven by engine K (extended as properties are built)
 
 
 def load_props():
